@@ -25,6 +25,25 @@ type Conn struct {
 	MaxRead int
 	// Hold delays delivery: reads block while it is set (per-link delay chosen by the harness).
 	Hold bool
+	// ReadPlan: the i-th Read of this end returns at most ReadPlan[i] bytes (0 = no limit);
+	// consumed from the front. Harness-controlled TCP segmentation.
+	ReadPlan []int
+	// Reads counts the Read calls that returned data
+	Reads int
+}
+
+// Pending returns the number of bytes written by the peer and not yet read.
+func (c *Conn) Pending() int {
+	c.rd.mu.Lock()
+	defer c.rd.mu.Unlock()
+	return len(c.rd.buf)
+}
+
+// Closed reports whether either side closed the link.
+func (c *Conn) Closed() bool {
+	c.rd.mu.Lock()
+	defer c.rd.mu.Unlock()
+	return c.rd.closed
 }
 
 type addr string
@@ -53,6 +72,13 @@ func (c *Conn) Read(p []byte) (int, error) {
 			if c.MaxRead > 0 && n > c.MaxRead {
 				n = c.MaxRead
 			}
+			if len(c.ReadPlan) > 0 {
+				if lim := c.ReadPlan[0]; lim > 0 && n > lim {
+					n = lim
+				}
+				c.ReadPlan = c.ReadPlan[1:]
+			}
+			c.Reads++
 			copy(p, c.rd.buf[:n])
 			c.rd.buf = c.rd.buf[n:]
 			c.rd.mu.Unlock()
